@@ -1,6 +1,6 @@
 --------------------------- MODULE MC_Forwarding ---------------------------
 (* Exhaustive model of Forwarding: one frame of every (emitter, dst, ttl)  *)
-(* on seven small internetworks (8-bit addresses; LANs are /4, the          *)
+(* on eight small internetworks (8-bit addresses; LANs are /4, the          *)
 (* router-router link a /6 with two usable addresses):                     *)
 (*   T1  a - r - [sw] - b                                                  *)
 (*   T2  a - r1 = r2 - b   static routes both ways, a longer-prefix route   *)
@@ -17,6 +17,7 @@
 (*       is a /4 with free addresses (78 is on it and owned by nobody)     *)
 (*   T7  the triangle of T5 with asymmetric paths (a->b round via r3,      *)
 (*       b->a over the direct link)                                        *)
+(*   T8  a, b and both router interfaces on ONE switch (two subnets)       *)
 (* The design lowers the ttl by one at every receiving interface / switch  *)
 (* port and at every routing decision.  harness/c08.py reads the           *)
 (* topologies and the frames from this model's behaviours, builds the real *)
@@ -57,7 +58,13 @@ T7 == << H("a", 18, 4, 17), H("b", 34, 4, 33),
          R("r1", <<If(17, 4), If(65, 6), If(73, 6)>>, <<Rt(32, 4, 74, 0), Rt(32, 4, 66, 1), Rt(128, 2, 66, 0)>>, NoHop),
          R("r2", <<If(33, 4), If(66, 6), If(69, 6)>>, <<Rt(16, 4, 65, 0), Rt(128, 2, 70, 0)>>, NoHop),
          R("r3", <<If(70, 6), If(74, 6)>>, <<Rt(128, 2, 73, 0), Rt(16, 4, 73, 0), Rt(32, 4, 69, 0)>>, NoHop) >>
-Topos == {T1, T2, T3, T4, T5, T6, T7}
+\* T8: ONE switch carries two subnets and both interfaces of the router are plugged into it: a routed frame crosses the
+\* same switch twice (and the router rewrites the addresses of the frame in between)
+S2(nm, n1, p1, n2, p2) == [name |-> nm, kind |-> "switch", ifs |-> <<If(n1, p1), If(n2, p2)>>, gw |-> NoHop, routes |-> <<>>, dflt |-> NoHop]
+T8 == << H("a", 18, 4, 17), H("b", 34, 4, 33),
+         R("r", <<If(17, 4), If(33, 4)>>, <<>>, NoHop),
+         S2("sw", 16, 4, 32, 4) >>
+Topos == {T1, T2, T3, T4, T5, T6, T7, T8}
 
 \* every owned address, an unowned address on each LAN and on the router-router subnet of T6 (78),
 \* two addresses that exist nowhere (133: inside the static 128/2 routes of T3/T5; 200: only default
